@@ -66,21 +66,33 @@ def make_trace(atoms, text, toks, which):
 
 
 def traces_of(atoms):
-    """All traces the real code yields for one lexeme sequence."""
+    """All traces the real code yields for one lexeme sequence.  Whatever the scanner returns goes
+    into the trace unchanged (negative, overlapping or out-of-range spans included): TLC rejects it.
+    Returns (traces, tokenize identical?, exceptions [(api, repr)])."""
     from mwlib.parser.token import utoken
     text = W.concretise(atoms)
-    toks = [tuple(t) for t in utoken.scan(text)]
+    excs = []
+    try:
+        toks = [tuple(int(x) for x in t) for t in utoken.scan(text)]
+    except Exception as e:                                          # noqa: BLE001
+        return [], 0, [("scan", "%s: %s" % (type(e).__name__, e))]
     out = [make_trace(atoms, text, toks, "scan")]
     same = 0
     if text:
         # the token list the refinement passes see (CompatScanner): identical spans except where
         # t_begin_table is split into colons + table start
-        ctoks = [(t.type, t.start, t.len) for t in utoken.tokenize(text)]
+        try:
+            ctoks = [(t.type, int(t.start), int(t.len)) for t in utoken.tokenize(text)]
+        except Exception as e:                                      # noqa: BLE001
+            # tokenize looks at the text of the tokens (entities, tag names): with spans that do not
+            # fit the text it may raise.  The scan trace above carries the verdict; this is recorded.
+            excs.append(("tokenize", "%s: %s" % (type(e).__name__, e)))
+            return out, same, excs
         if [(s, n) for (_, s, n) in ctoks] != [(s, n) for (_, s, n) in toks]:
             out.append(make_trace(atoms, text, ctoks, "tokenize"))
         else:
             same = 1
-    return out, same
+    return out, same, excs
 
 
 def _scan_worker(args):
@@ -92,6 +104,8 @@ def _scan_worker(args):
     nontrivial = set()
     seen = set()
     sample = None
+    raised = []          # (atoms, api, exception) — at most 20 kept per worker
+    nraised = 0
 
     def flush():
         nonlocal cur
@@ -102,8 +116,12 @@ def _scan_worker(args):
             files.append((p, len(cur), sum(len(t["ev"]) + 1 for t in cur)))
             cur = []
     for atoms in seqs:
-        trs, sm = traces_of(atoms)
+        trs, sm, excs = traces_of(atoms)
         same += sm
+        for api, what in excs:
+            nraised += 1
+            if len(raised) < 20:
+                raised.append((atoms, api, what))
         for tr in trs:
             cur.append(tr)
             ntraces += 1
@@ -119,7 +137,7 @@ def _scan_worker(args):
             if len(cur) >= BATCH:
                 flush()
     flush()
-    return files, ntraces, nstates, nontrivial, same, sample
+    return files, ntraces, nstates, nontrivial, same, sample, raised, nraised
 
 
 def scan_all(ctx, seqs, tag):
@@ -133,7 +151,8 @@ def scan_all(ctx, seqs, tag):
         distinct |= r[3]
     tot = [sum(r[1] for r in res), sum(r[2] for r in res), len(distinct), sum(r[4] for r in res)]
     samples = [r[5] for r in res if r[5]]
-    return files, tot, samples
+    raised = [x for r in res for x in r[6]]
+    return files, tot, samples, raised, sum(r[7] for r in res)
 
 
 # ----------------------------------------------------------------------------- traces -> TLC
@@ -280,13 +299,22 @@ def run(ctx):
             seqs += s
     sizes["simulated"] = nsim
     # ---- P-TRACE
-    files, (ntraces, nstates, nontrivial, same), samples = scan_all(ctx, seqs, "all")
+    files, (ntraces, nstates, nontrivial, same), samples, raised, nraised = scan_all(ctx, seqs, "all")
+    for atoms, api, what in raised:
+        if api == "scan":
+            # no token list at all: reported directly, there is nothing TLC could be given
+            ctx.violation("scan raises %s" % what.split(":")[0], "utoken.scan(%r) raises %s" % (W.concretise(atoms), what),
+                          {"atoms": atoms, "which": "scan", "text": W.concretise(atoms), "tokens": [], "reason": what})
     nvalid, tstates, tgen = validate_all(ctx, files)
+    ntok_raised = sum(1 for r in raised if r[1] == "tokenize")
+    if nraised:
+        ctx.note("%d texts made utoken.scan / tokenize raise (not a verdict of C10 unless scan itself raises; the scan trace of "
+                 "the same text is validated): e.g. %r" % (nraised, [(W.concretise(a), api, w) for a, api, w in raised[:3]]))
     if not ctx.violations and not ctx.known_hits and nvalid != ntraces:
         ctx.machinery("validated %d of %d traces" % (nvalid, ntraces))
     ctx.set_cover(evaluations=ntraces, distinct_nontrivial=nontrivial,
                   exhaustive=True, sequences=len(seqs), enumerated=sizes,
-                  tokenize_traces_identical_to_scan=same,
+                  tokenize_traces_identical_to_scan=same, texts_on_which_scan_or_tokenize_raised=nraised,
                   traces_validated_against_impl=nvalid, trace_states=tstates, trace_transitions=tgen,
                   states=mc_states + gen_states + tstates, transitions=mc_trans + tgen,
                   spec_mc={"states": mc_states, "transitions": mc_trans}, action_coverage=cov,
@@ -309,7 +337,7 @@ def run(ctx):
 def replay(ctx, path):
     with open(path) as f:
         rec = json.load(f)["replay"]
-    trs, _ = traces_of(rec["atoms"])
+    trs, _, _ = traces_of(rec["atoms"])
     bad = 0
     for tr in trs:
         if tr["w"] != rec["which"]:
